@@ -574,9 +574,42 @@ def repaired_case(draw, **kw):
     if r < 3:
         return base
     fixed = repair(base)
-    if r < 6:
-        return fixed
-    return draw(tighten(fixed))
+    out = fixed if r < 6 else draw(tighten(fixed))
+    if draw(st.integers(0, 24)) == 0:
+        return empty_decisive(draw, base)
+    return out
+
+
+def empty_decisive(draw, case):
+    """The empty case, made decisive: the table loses every row, the schema is repaired to accept it, and one column
+    gets a check on the column as a whole that no values cannot satisfy (unique_values_eq of a non-empty set) - or, half
+    of the time, keeps only checks that no values satisfy trivially.  'Nothing to check' is not 'passes'."""
+    import copy
+
+    case = copy.deepcopy(case)
+    table = case["table"]
+    for t in table["columns"]:
+        t["cells"] = []
+    ix = table.get("index")
+    if ix:
+        for l in ix.get("multi", [ix]):
+            l["cells"] = []
+    if not table["columns"] and not ix:
+        table["nrows"] = 0
+    case = repair(case)
+    tcs = {t["name"]: t for t in case["table"]["columns"]}
+    cands = [c for c in case["spec"]["columns"] if not c.get("regex") and c["name"] in tcs
+             and c.get("dtype") not in (None, "object") and c["dtype"] in ACCEPTED_TAGS.get(tcs[c["name"]]["phys"], [])]
+    if case["spec"].get("kind") == "series":
+        cands = [c for c in case["spec"]["columns"] if c.get("dtype") not in (None, "object")
+                 and c["dtype"] in ACCEPTED_TAGS.get(case["table"]["columns"][0]["phys"], [])]
+    if cands and draw(st.booleans()):
+        c = draw(st.sampled_from(cands))
+        phys = case["table"]["columns"][0]["phys"] if case["spec"].get("kind") == "series" else tcs[c["name"]]["phys"]
+        if phys != "bool":
+            c["checks"] = list(c.get("checks", [])) + [{"kind": "unique_values_eq", "args": {"values": [_pool(phys)[0]]}}]
+    case["empty_decisive"] = True
+    return case
 
 
 # --------------------------------------------------------------------- parser options
